@@ -21,7 +21,8 @@ RULE = ('seeded random (x, P, z, H, R): n in 1..20, m in 1..6, cond(P) 1..1e10 i
         'existing test has; distinct = distinct generator parameters; plus ambient cases: the same contract on every '
         'kalman.correct call made by the real filters on seeded schedules'
         ' Round 3: residuals that are exactly zero (x = 0, z = 0; whole-number H and x; one independent block only).'
-        ' Round 4: before every monitored correction the other function of the module and a correction of the same size are called and the caller overwrites what they returned.')
+        ' Round 4: before every monitored correction the other function of the module and a correction of the same size are called and the caller overwrites what they returned.'
+        ' Round 5: observation components in any order (independent groups interleaved).')
 ASSUMPTIONS = ['mpmath 50-digit arithmetic is exact relative to float64',
                'rounding bounds: c*eps*cond(S) for mean/innovation, Joseph-form bound for P; '
                'cases with eps*cond(S) > 1e-5 are counted as ill-conditioned-skipped for the '
